@@ -184,19 +184,30 @@ def addSimStep {n : Nat} (F S : Mat α n n) (stream : Nat → α) (k : Nat) (x :
   let M := (addMotion F S false none X X ⟨stream, k * n⟩).1
   Vec.of fun i => M i ⟨0, Nat.one_pos⟩
 
-/-- linear / circular / noise component counts of a `VectorDescription` (Euler type) -/
+/-- `VectorDescription`: linear / circular / noise component counts and the circular type
+    (`quat = true` for `CircularType::Quaternion`, `false` for `Euler`, the default). -/
 structure Descr where
   lin : Nat
   circ : Nat
   noise : Nat
+  quat : Bool := false
   deriving DecidableEq, Repr
+
+def Descr.linearSize (d : Descr) : Nat := d.lin
+/-- a quaternion component occupies four entries -/
+def Descr.circularSize (d : Descr) : Nat := if d.quat then d.circ * 4 else d.circ
+def Descr.noiseSize (d : Descr) : Nat := d.noise
+def Descr.totalSize (d : Descr) : Nat := d.linearSize + d.circularSize + d.noiseSize
+/-- degrees of freedom: a quaternion has three -/
+def Descr.dofSize (d : Descr) : Nat :=
+  if d.quat then d.linearSize + d.circ * 3 + d.noiseSize else d.totalSize
 
 /-- `AdditiveStateModel::getInputDescription`: state description plus `Q.rows()` noise components -/
 def additiveInputDescr (state : Descr) (qRows : Nat) : Descr :=
   { state with noise := state.noise + qRows }
 
 /-- `WhiteNoiseAcceleration::getStateDescription` -/
-def wnaStateDescr (dim : Dim) : Descr := ⟨dim.stateDim, 0, 0⟩
+def wnaStateDescr (dim : Dim) : Descr := { lin := dim.stateDim, circ := 0, noise := 0 }
 
 /-! ### transition density -/
 
@@ -340,6 +351,11 @@ def sensorFreeze {n m : Nat} (H : Mat α m n) (SR : Mat α m m) (s : Sensor α n
     | none => ({ s with sim := sim' }, false)   -- not reachable: a successful bufferData stores data
   | (sim', _) => ({ s with sim := sim' }, false)
 
+/-- `k` successive calls of `freeze` -/
+def sensorFreezeN {n m : Nat} (H : Mat α m n) (SR : Mat α m m) (s : Sensor α n m) : Nat → Sensor α n m
+  | 0 => s
+  | k + 1 => (sensorFreeze H SR (sensorFreezeN H SR s k)).1
+
 /-- `measure()`: always valid; returns `measurement_`. -/
 def sensorMeasure {n m : Nat} (s : Sensor α n m) : Bool × Option (Vec α m) := (true, s.meas)
 
@@ -348,11 +364,63 @@ def sensorMeasure {n m : Nat} (s : Sensor α n m) : Bool × Option (Vec α m) :=
 def sensorInputDescr (state : Descr) (rRows : Nat) : Descr := { state with noise := state.noise + rRows }
 
 def sensorMeasDescr (state : Descr) (idx : List Nat) : Descr :=
-  { lin := (idx.filter (fun c => decide (c < state.lin))).length
-    circ := (idx.filter (fun c => !decide (c < state.lin))).length
+  { lin := (idx.filter (fun c => decide (c < state.linearSize))).length
+    circ := (idx.filter (fun c => !decide (c < state.linearSize))).length
     noise := 0 }
 
 end sensor
+
+/-! ### the measurement description as the constructor computes it (from `H`, not from the index list) -/
+
+section measdescr
+variable {α : Type} [LT α] [DecidableLT α] [Neg α] [Zero α]
+
+/-- `|x|` -/
+def absV (x : α) : α := if x < 0 then -x else x
+
+/-- `H_.row(i).array().abs().maxCoeff(&state_index)`: the first column at which `|H i ·|` is maximal -/
+def rowArgmaxAbs {m n : Nat} (H : Mat α m n) (i : Fin m) : Option (Fin n) :=
+  (List.finRange n).find? fun j => (List.finRange n).all fun k => !decide (absV (H i j) < absV (H i k))
+
+/-- the state component row `i` selects (`state_index`) -/
+def rowSel {m n : Nat} (H : Mat α m n) (i : Fin m) : Nat :=
+  match rowArgmaxAbs H i with
+  | some j => j.val
+  | none => 0
+
+def sensorSel {m n : Nat} (H : Mat α m n) : List Nat := (List.finRange m).map (rowSel H)
+
+/-- the loop of the constructor: a row counts as linear iff its arg-max column lies in the linear
+    part of the input description; the result is `VectorDescription(linear, circular)` (Euler). -/
+def sensorMeasDescrH {m n : Nat} (state : Descr) (H : Mat α m n) : Descr :=
+  let sel := sensorSel H
+  { lin := (sel.filter (fun c => decide (c < state.linearSize))).length
+    circ := (sel.filter (fun c => !decide (c < state.linearSize))).length
+    noise := 0 }
+
+end measdescr
+
+/-! ## Plumbing: properties, sampling time, hand-over -/
+
+/-- `Agent::setProperty` (default), `WhiteNoiseAcceleration::setProperty`,
+    `LTIStateModel::setProperty`: every property string is refused. -/
+def defaultSetProperty (_property : String) : Bool := false
+
+/-- `StateModel::setSamplingTime` (not overridden by the shipped models): reports `true` and changes
+    nothing — the configuration `(dim, T, q)` stays the constructor's. -/
+def wnaSetSamplingTime {α : Type} (cfg : Dim × α × α) (_time : α) : Bool × (Dim × α × α) := (true, cfg)
+
+/-- What an object of `WhiteNoiseAcceleration` is, as far as this property is concerned: its
+    configuration and the state of its generator.  Move construction / move assignment transfer the
+    `pimpl_` pointer: the target is the source, unchanged. -/
+structure WnaObj (α : Type) where
+  dim : Dim
+  T : α
+  q : α
+  rng : Rng α
+
+def WnaObj.moveFrom {α : Type} (src : WnaObj α) : WnaObj α := src
+def WnaObj.moveAssign {α : Type} (_dst src : WnaObj α) : WnaObj α := src
 
 /-! ## Grid initialiser -/
 
